@@ -119,6 +119,21 @@ def run(ctx):
     caller_arguments_untouched(ctx, CONV, "R8.caller-arguments-untouched",
                                {("set_structure", "pdbx_file"): "the file is what set_structure fills",
                                 ("set_component", "pdbx_file"): "the file is what set_component fills"}, 8)
+    # whether an atom_site row was found for a bond partner is `is None` of the look-up, not its truth (row 0 is a row)
+    from ..lints import lookup_results_tested_for_none
+    lookup_results_tested_for_none(ctx, CONV, "R3.lookup-found-is-not-none", 1)
+    # what is set into a file that was read is written from that file: the text container keeps the block it parsed on demand
+    # (rule shared with C06; here it is the write-after-read round trip of set_structure that depends on it)
+    from .. import lazy
+    from ..astutil import calls as _calls
+    cifs = ctx.src("structure/io/pdbx/cif.py")
+    n_lazy = 0
+    for cname, cnode in cifs.classes.items():
+        gi = next((m for m in cnode.body if isinstance(m, ast.FunctionDef) and m.name == "__getitem__"), None)
+        if gi is not None and any(isinstance(c.func, ast.Attribute) and c.func.attr == "deserialize" for c in _calls(gi)):
+            n_lazy += 1
+            lazy.check_getitem_stores(ctx, "R2.lazy-parse-stored", "structure/io/pdbx/cif.py", cname, gi)
+    ctx.floor("R2.lazy-parse-stored", n_lazy, 2)
     members = bond_type_members(ctx)
     ctx.count("bondtype_members", len(members))
 
